@@ -121,3 +121,11 @@ package absnfs
 //@ ensures [miss-is-nil] !result1 ==> result0 == nil
 //@ ensures [unlocked] held(h.server.handler.fileMap.RWMutex) == 0
 //@ ensures [miss-iff] !has(h.server.handler.fileMap.handles, handle) ==> !result1
+
+// ---- the handle table closes the objects it evicts or releases through the absfs.File interface; the objects
+// it holds are NFSNodes, so NFSNode.Close must itself be what the interface's assumed contract says: it touches
+// nothing - in particular it issues no backend operation (C08: eviction during a LOOKUP on a read-only export)
+//@ func NFSNode.Close
+//@ prop C05 C08
+//@ modifies nothing
+//@ ensures [no-op] isnil(result)
